@@ -123,21 +123,22 @@ def unreadByte : RM Unit := fun r =>
 /-- `bytes.Reader.Seek(n, io.SeekCurrent)` for `n ≥ 0` -/
 def seekCur (n : Nat) : RM Unit := fun r => (.ok (), { r with pos := r.pos + n })
 
-/-- `bytes.Reader.Read(buf)` with `len(buf) = n`, followed by the caller looking at the whole
-    `buf`: returns the `n`-byte buffer contents (zero-padded on a short read) and whether `io.EOF`
-    was returned (only when nothing at all was available).  -/
-def readBuf (n : Nat) : Reader → (Bytes × Bool) × Reader := fun r =>
-  if r.pos ≥ r.data.size then ((zeros n, true), r)
+/-- `io.ReadFull(r, buf)` with `len(buf) = n` on a `bytes.Reader`: all `n` bytes or an error
+    (`io.EOF` when nothing is left, `io.ErrUnexpectedEOF` on a short read — both `.eof` here); the
+    position advances by what was available. An empty buffer reads nothing and succeeds. -/
+def readFull (n : Nat) : RM Bytes := fun r =>
+  if n = 0 then (.ok [], r)
+  else if r.pos ≥ r.data.size then (.error .eof, r)
   else
     let got := takeFrom r.data r.pos n
-    ((got ++ zeros (n - got.length), false), { r with pos := r.pos + got.length })
+    if got.length < n then (.error .eof, { r with pos := r.pos + got.length })
+    else (.ok got, { r with pos := r.pos + got.length })
 
-/-- `bReadU16/32/64`: the value is assigned even when an error is returned; callers use it only
-    when `err == nil`. -/
+/-- `bReadU16/32/64` (the value is assigned also on error; callers use it only when `err == nil`) -/
 def bReadU (n : Nat) : RM Nat := fun r =>
-  match readBuf n r with
-  | ((buf, false), r') => (.ok (beVal buf), r')
-  | ((_, true), r') => (.error .eof, r')
+  match readFull n r with
+  | (.ok buf, r') => (.ok (beVal buf), r')
+  | (.error e, r') => (.error e, r')
 
 /-- `bReadU8` -/
 def bReadU8 : RM Nat := fun r =>
@@ -415,6 +416,12 @@ def readFloat64 (old : Nat) (tag : Nat) (require : Bool) : RM Nat := fun r =>
     else if ty = tyDOUBLE then bReadU 8 r1
     else (.error .mismatch, r1)
 
+/-- `buff := b.Next(int(length)); if len(buff) != length { return error }` in `ReadString` -/
+def nextExact (l : Nat) : RM Bytes := fun r =>
+  match next (l : Int) r with
+  | (.error e, r') => (.error e, r')
+  | (.ok buff, r') => if buff.length ≠ l then (.error .eof, r') else (.ok buff, r')
+
 /-- `Reader.ReadString` -/
 def readString (old : Bytes) (tag : Nat) (require : Bool) : RM Bytes := fun r =>
   match skipToNoCheck tag require r with
@@ -424,29 +431,22 @@ def readString (old : Bytes) (tag : Nat) (require : Bool) : RM Bytes := fun r =>
     if ty = tySTRING4 then
       match bReadU 4 r1 with
       | (.error e, r') => (.error e, r')
-      | (.ok l, r2) => next (l : Int) r2
+      | (.ok l, r2) => nextExact l r2
     else if ty = tySTRING1 then
       match bReadU8 r1 with
       | (.error e, r') => (.error e, r')
-      | (.ok l, r2) => next (l : Int) r2
+      | (.ok l, r2) => nextExact l r2
     else (.error .mismatch, r1)
 
 /-- `Reader.ReadSliceInt8 / ReadSliceUint8` (`len` is the int32 argument); returns the new slice
     (`old` when `len ≤ 0`) -/
 def readSlice8 (old : Bytes) (len : Int) : RM Bytes := fun r =>
   if len ≤ 0 then (.ok old, r)
-  else
-    match readBuf len.toNat r with
-    | ((buf, false), r') => (.ok buf, r')
-    | ((_, true), r') => (.error .eof, r')
+  else readFull len.toNat r
 
-/-- `Reader.ReadBytes`: no `len ≤ 0` guard: `make([]byte, len)` panics for negative `len`;
-    `bytes.Reader.Read` on an exhausted reader returns EOF even for an empty buffer. -/
+/-- `Reader.ReadBytes`: no `len ≤ 0` guard: `make([]byte, len)` panics for negative `len` -/
 def readBytes (len : Int) : RM Bytes := fun r =>
   if len < 0 then (.error (.panic "makeslice"), r)
-  else
-    match readBuf len.toNat r with
-    | ((buf, false), r') => (.ok buf, r')
-    | ((_, true), r') => (.error .eof, r')
+  else readFull len.toNat r
 
 end Tars
